@@ -9,8 +9,10 @@ Start nodes (every rule of the code base is `startsOf B k lo m`, see `envRule_ta
 * `starts_feasible_of_mask`            interface lemma: feasible iff the reset mask admits that prefix
   (`start_infeasible_of_mask` is the converse used by the findings)
 * `starts_dup_of_gt`, `default_starts_le`, `default_starts_gt`
-OP (finding): `op_starts_feasible_statement`, `op_starts_distinct_statement` are FALSE of the code
-(`…_counterexample`), `op_starts_partial` is what does hold.
+OP (rule fixed upstream in d560d2a; full theorems): `op_starts_feasible` (feasible for the own instance
+whenever it has ≥ 1 feasible customer), `op_starts_distinct` (≥ k feasible ⇒ pairwise distinct),
+`op_starts_eq_generic` (all customers feasible ⇒ identical to the generic depot rule), `op_starts_row`
+(row j·B+b depends on instance b's mask only).
 Best-of-k: `select_best_correct` for every tie-breaking of `max` (`IsArgmax`);
 `get_best_actions_statement` is FALSE of the code (`get_best_actions_counterexample`),
 `get_best_actions_partial`.
@@ -115,7 +117,7 @@ theorem envRule_table (g a l : Nat) :
     envRule "flp" g a l = (0, a) ∧ envRule "mcp" g a l = (0, a) ∧
     envRule "pdp" g a l = (1, (l - 1) / 2) ∧ envRule "mtvrp" g a l = (1, l - 1) ∧
     envRule "cvrp" g a l = (1, g) ∧ envRule "cvrptw" g a l = (1, g) ∧ envRule "sdvrp" g a l = (1, g) ∧
-    envRule "svrp" g a l = (1, g) ∧ envRule "op" g a l = (1, g) ∧ envRule "pctsp" g a l = (1, g) ∧
+    envRule "svrp" g a l = (1, g) ∧ envRule "pctsp" g a l = (1, g) ∧
     envRule "spctsp" g a l = (1, g) ∧ envRule "mtsp" g a l = (1, g) ∧ envRule "mdcpdp" g a l = (1, g) := by
   simp [envRule, genericRule, Params.opsNoDepotStartEnvs]
 
@@ -124,7 +126,6 @@ theorem envRule_table (g a l : Nat) :
 incl. depot `n + 1`; TSP-likes: width `n`) … -/
 theorem default_starts_le :
     (∀ n, envGetNumStarts "cvrp" (n + 1) (n + 1) ≤ (envRule "cvrp" n (n + 1) (n + 1)).2) ∧
-    (∀ n, envGetNumStarts "op" (n + 1) (n + 1) ≤ (envRule "op" n (n + 1) (n + 1)).2) ∧
     (∀ n, envGetNumStarts "pctsp" (n + 1) (n + 1) ≤ (envRule "pctsp" n (n + 1) (n + 1)).2) ∧
     (∀ n, envGetNumStarts "pdp" (n + 1) (n + 1) ≤ (envRule "pdp" n (n + 1) (n + 1)).2) ∧
     (∀ n, envGetNumStarts "tsp" n n ≤ (envRule "tsp" n n n).2) ∧
@@ -140,77 +141,104 @@ theorem default_starts_gt :
   simp [envGetNumStarts, getNumStarts, depotList, envRule, genericRule, Params.opsNoDepotStartEnvs,
     Params.opsNumStartsDepotEnvs]
 
-/-! ### OP: the resampling branch -/
+/-! ### OP (fixed rule, upstream d560d2a): feasible nodes in ascending order, cycling -/
 
-/-- the full claim for OP: whenever instance `b` has at least `k` feasible starts, all its forced
-starts are feasible … -/
-def op_starts_feasible_statement : Prop :=
-  ∀ (n k : Nat) (masks : List (Nat → Bool)) (sel : List Nat),
-    opStartsOk n n k masks sel = true →
-    ∀ b, b < masks.length → k ≤ feasCount n (masks.getD b (fun _ => false)) →
-      ∀ s ∈ instStarts masks.length k b sel, (masks.getD b (fun _ => false)) s = true
+theorem feasCount_eq (n : Nat) (mask : Nat → Bool) : feasCount n mask = (opFeas n mask).length := rfl
 
-/-- … and pairwise distinct. -/
-def op_starts_distinct_statement : Prop :=
-  ∀ (n k : Nat) (masks : List (Nat → Bool)) (sel : List Nat),
-    opStartsOk n n k masks sel = true →
-    ∀ b, b < masks.length → k ≤ feasCount n (masks.getD b (fun _ => false)) →
-      (instStarts masks.length k b sel).Nodup
+theorem opFeas_mem {n : Nat} {mask : Nat → Bool} {x : Nat} (h : x ∈ opFeas n mask) :
+    x < n ∧ mask (x + 1) = true := by
+  simpa [opFeas, List.mem_filter] using h
 
-/-- 4 customers, feasible first moves {2,3,4}, `k = 3`: exactly 3 feasible starts exist, the
-resampling test `3 < 3` is false, and the forced starts are {1,2,3} — node 1 is infeasible. -/
-theorem op_starts_feasible_counterexample : ¬ op_starts_feasible_statement := by
-  intro h
-  have := h 4 3 [fun j => j == 0 || (decide (2 ≤ j) && decide (j ≤ 4))] [1, 2, 3] (by decide) 0
-    (by decide) (by decide) 1 (by decide)
-  revert this; decide
+theorem opFeas_nodup (n : Nat) (mask : Nat → Bool) : (opFeas n mask).Nodup :=
+  List.Pairwise.filter _ (List.nodup_range)
 
-/-- two instances, `k = 2`: instance 0 has the feasible starts {1,2}, its batch-mate only {2}, so the
-*batch-global* test sends both through sampling with replacement, which may (and on the real code
-does, see the replayed witness) return {1,1} for instance 0. -/
-theorem op_starts_distinct_counterexample : ¬ op_starts_distinct_statement := by
-  intro h
-  have := h 4 2 [fun j => decide (j ≤ 2), fun j => j == 0 || j == 2] [1, 2, 1, 2] (by decide) 0
-    (by decide) (by decide)
-  revert this; decide
+/-- copy `j` is forced to the `(j mod #feasible)`-th feasible customer -/
+theorem opPick_eq (n : Nat) (mask : Nat → Bool) (j : Nat) (h1 : 1 ≤ feasCount n mask) :
+    ∃ h : j % feasCount n mask < (opFeas n mask).length,
+      opPick n mask j = (opFeas n mask)[j % feasCount n mask] + 1 := by
+  have hlt : j % feasCount n mask < (opFeas n mask).length := by
+    rw [← feasCount_eq]; exact Nat.mod_lt _ h1
+  refine ⟨hlt, ?_⟩
+  have hmax : max Params.opsOpClampMin (feasCount n mask) = feasCount n mask := by
+    simp only [Params.opsOpClampMin]; omega
+  simp only [opPick, opOrder, Params.opsOpArgsortStable, if_true, hmax]
+  rw [List.getD_eq_getElem?_getD, List.getElem?_append_left hlt, List.getElem?_eq_getElem hlt]
+  rfl
 
-theorem all_range {n : Nat} {p : Nat → Bool} (h : (List.range n).all p = true) (r : Nat) (hr : r < n) :
-    p r = true := by
-  rw [List.all_eq_true] at h
-  exact h r (List.mem_range.mpr hr)
+/-- **C12 `op_starts_feasible`**: every forced start is a customer `1..n` that is feasible for its own
+instance, whenever the instance has at least one feasible customer (any `k`, any batch-mates). -/
+theorem op_starts_feasible (n k : Nat) (mask : Nat → Bool) (h1 : 1 ≤ feasCount n mask) :
+    ∀ s ∈ opInstStarts n k mask, 1 ≤ s ∧ s ≤ n ∧ mask s = true := by
+  intro s hs
+  simp only [opInstStarts, List.mem_map, List.mem_range] at hs
+  obtain ⟨j, _, rfl⟩ := hs
+  obtain ⟨hlt, he⟩ := opPick_eq n mask j h1
+  rw [he]
+  have := opFeas_mem (List.getElem_mem hlt)
+  exact ⟨by omega, by omega, this.2⟩
 
-/-- **`op_starts_partial`**: (a) in the resampling branch every forced start is feasible for its
-instance; (b) in the deterministic branch the starts of instance `b` are feasible if its mask admits
-the prefix `1 … k`, and they are pairwise distinct (`k ≤ num_loc`). -/
-theorem op_starts_partial (n g k : Nat) (masks : List (Nat → Bool)) (sel : List Nat)
-    (hok : opStartsOk n g k masks sel = true) (b : Nat) (hb : b < masks.length) :
-    (opResample n k masks = true →
-      ∀ s ∈ instStarts masks.length k b sel, (masks.getD b (fun _ => false)) s = true) ∧
-    (opResample n k masks = false → k ≤ g →
-      (instStarts masks.length k b sel).Nodup ∧
-      ((∀ a, 1 ≤ a → a < 1 + k → (masks.getD b (fun _ => false)) a = true) →
-        ∀ s ∈ instStarts masks.length k b sel, (masks.getD b (fun _ => false)) s = true)) := by
-  refine ⟨?_, ?_⟩
-  · intro hrs s hs
-    simp only [opStartsOk, hrs, if_true, resampledOk, Bool.and_eq_true] at hok
-    obtain ⟨_, hall⟩ := hok
-    simp only [instStarts, List.mem_map, List.mem_range] at hs
-    obtain ⟨j, hj, rfl⟩ := hs
-    have hlt : j * masks.length + b < k * masks.length := by
-      calc j * masks.length + b < j * masks.length + masks.length := by omega
-        _ = (j + 1) * masks.length := by rw [Nat.add_mul, Nat.one_mul]
-        _ ≤ k * masks.length := Nat.mul_le_mul_right _ hj
-    have := all_range hall _ hlt
-    simp only [Bool.and_eq_true] at this
-    have hmod : (j * masks.length + b) % masks.length = b := by
-      rw [Nat.mul_comm, Nat.mul_add_mod, Nat.mod_eq_of_lt hb]
-    rw [hmod] at this
-    exact this.2
-  · intro hrs hk
-    simp only [opStartsOk, hrs] at hok
-    have hsel : sel = startsOf masks.length k 1 g := by simpa using hok
-    subst hsel
-    exact ⟨starts_distinct _ k 1 g b hb hk, starts_feasible_of_mask _ k 1 g b hb hk _⟩
+theorem opInstStarts_eq_take (n k : Nat) (mask : Nat → Bool) (hk : k ≤ feasCount n mask) :
+    opInstStarts n k mask = ((opFeas n mask).take k).map (· + 1) := by
+  apply List.ext_getElem
+  · simp [opInstStarts, ← feasCount_eq]; omega
+  · intro j h1 h2
+    have hj : j < k := by simpa [opInstStarts] using h1
+    have hpos : 1 ≤ feasCount n mask := by omega
+    obtain ⟨hlt, he⟩ := opPick_eq n mask j hpos
+    simp only [opInstStarts, List.getElem_map, List.getElem_range, he, List.getElem_take]
+    congr 2
+    exact Nat.mod_eq_of_lt (by omega)
+
+/-- **C12 `op_starts_distinct`**: with at least `k` feasible customers the `k` forced starts of the
+instance are pairwise distinct (they are its first `k` feasible customers). -/
+theorem op_starts_distinct (n k : Nat) (mask : Nat → Bool) (hk : k ≤ feasCount n mask) :
+    (opInstStarts n k mask).Nodup := by
+  rw [opInstStarts_eq_take n k mask hk, List.Nodup, List.pairwise_map]
+  have : ((opFeas n mask).take k).Nodup := List.Pairwise.sublist (List.take_sublist _ _) (opFeas_nodup n mask)
+  exact List.Pairwise.imp (fun {a b} (h : a ≠ b) => by omega) this
+
+/-- **C12 `op_starts_eq_generic`**: when all customers are feasible the fixed rule is identical to the
+generic depot rule `(j mod n) + 1` (what every other depot environment, and OP before the fix, uses). -/
+theorem op_starts_eq_generic (n k : Nat) (mask : Nat → Bool) (hn : 1 ≤ n)
+    (hall : ∀ j, j < n → mask (j + 1) = true) :
+    opInstStarts n k mask = (List.range k).map (fun j => j % n + 1) := by
+  have hF : opFeas n mask = List.range n := by
+    simp only [opFeas]
+    exact List.filter_eq_self.mpr (fun j hj => hall j (List.mem_range.mp hj))
+  have hc : feasCount n mask = n := by rw [feasCount_eq, hF, List.length_range]
+  apply List.map_congr_left
+  intro j _
+  obtain ⟨hlt, he⟩ := opPick_eq n mask j (by omega)
+  rw [he]
+  simp only [hF, hc, List.getElem_range]
+
+theorem op_starts_eq_generic' (B n k b : Nat) (hb : b < B) (mask : Nat → Bool) (hn : 1 ≤ n)
+    (hall : ∀ j, j < n → mask (j + 1) = true) :
+    opInstStarts n k mask = instStarts B k b (startsOf B k 1 n) := by
+  rw [op_starts_eq_generic n k mask hn hall, instStarts_startsOf B k 1 n b hb]
+
+/-- **C12 `op_starts_row`**: row `j·B + b` of the batched result is copy `j` of instance `b` — the starts
+of an instance depend on its own mask only (no batch-global test any more). -/
+theorem op_starts_row (n k : Nat) (masks : List (Nat → Bool)) (b : Nat) (hb : b < masks.length) :
+    instStarts masks.length k b (opStarts n k masks) =
+      opInstStarts n k (masks.getD b (fun _ => false)) := by
+  simp only [instStarts, opInstStarts]
+  apply List.map_congr_left
+  intro j hj
+  have hj : j < k := List.mem_range.mp hj
+  have hlt : j * masks.length + b < k * masks.length := by
+    calc j * masks.length + b < j * masks.length + masks.length := by omega
+      _ = (j + 1) * masks.length := by rw [Nat.add_mul, Nat.one_mul]
+      _ ≤ k * masks.length := Nat.mul_le_mul_right _ hj
+  have hmod : (j * masks.length + b) % masks.length = b := by
+    rw [Nat.mul_comm, Nat.mul_add_mod, Nat.mod_eq_of_lt hb]
+  have hdiv : (j * masks.length + b) / masks.length = j := by
+    rw [Nat.mul_comm, Nat.mul_add_div (by omega : masks.length > 0), Nat.div_eq_of_lt hb, Nat.add_zero]
+  simp [opStarts, List.getD_eq_getElem?_getD, hlt, hmod, hdiv]
+
+/-- OP's default number of starts is the number of customers -/
+theorem op_default_starts (n : Nat) : envGetNumStarts "op" (n + 1) (n + 1) = n := by
+  simp [envGetNumStarts, getNumStarts, depotList, Params.opsNumStartsDepotEnvs]
 
 /-! ### best-of-k selection -/
 
@@ -394,8 +422,11 @@ example : argmaxFirst (fun j => [5, 7, 7, 1].getD j 0) 4 = 1 ∧ argmaxLast (fun
 /-- `B = 2`, `k = 3`, rewards `[5,1,5,7,2,7]`: instance 0 owns rows 0,2,4, instance 1 rows 1,3,5 -/
 example : (selectBest argmaxFirst ⟨[6], fun i => [5, 1, 5, 7, 2, 7].getD (i.headD 0) 0⟩ (iota 6) 3).flat = [0, 3] := by
   decide
-example : opStartsOk 4 4 3 [fun j => j == 0 || (decide (2 ≤ j) && decide (j ≤ 4))] [1, 2, 3] = true := by decide
-example : opResample 4 3 [fun j => j == 0 || (decide (2 ≤ j) && decide (j ≤ 4))] = false := by decide
-example : opResample 4 2 [fun j => decide (j ≤ 2), fun j => j == 0 || j == 2] = true := by decide
+/-- the former counterexamples: feasible {2,3,4}, `k = 3` now gives {2,3,4}; … -/
+example : opInstStarts 4 3 (fun j => j == 0 || (decide (2 ≤ j) && decide (j ≤ 4))) = [2, 3, 4] := by decide
+/-- … and a batch-mate with a single feasible node no longer disturbs instance 0 -/
+example : opStarts 4 2 [fun j => decide (j ≤ 2), fun j => j == 0 || j == 2] = [1, 2, 2, 2] := by decide
+example : feasCount 4 (fun j => j == 0 || (decide (2 ≤ j) && decide (j ≤ 4))) = 3 := by decide
+example : opInstStarts 4 5 (fun j => j == 0 || j == 3) = [3, 3, 3, 3, 3] := by decide
 
 end Rl4co.Ops
